@@ -309,8 +309,8 @@ def run_reader(case, stt):
 
 SUBS = [
     Sub("array", r2c_case(), run_r2c,
-        "N 0..130 of every residue mod 4, rank 1..3, every axis incl. negative, dtypes f2/f4/f8/i2/i8/u1/bool, noise/tone/impulse/constant "
-        "data; definition, shape, dtype, real-part identity, linearity, tone mapping, complex refusal; non-trivial = N >= 3 and (axis != 0 or "
+        "N 0..130 of every residue mod 4, rank 1..3 (other axes of length 0..3), every axis incl. negative, dtypes f2/f4/f8/i2/i8/u1/bool, "
+        "noise/tone/impulse/constant data, optionally lines of very different amplitude side by side (error measured per line); definition, shape, dtype, real-part identity, linearity, tone mapping, complex refusal; non-trivial = N >= 3 and (axis != 0 or "
         "odd N or non-tone data)", quick=2500, thorough=50000, pieces_quick=4),
     Sub("call_history", hist_case(), run_hist, "2..4 conversions of different arrays in one process, the first repeated at the end; non-trivial = "
         "with the repeat", quick=300, thorough=5000, pieces_quick=3),
